@@ -357,6 +357,7 @@ type Observed struct {
 type runResult struct {
 	chains   [3][]cfgnorm.Lookup // rendered lookup chains: http host map, https host map, default-host map
 	defback  string              // default_backend of _front_http
+	backends []string            // names of the rendered backend sections
 	objs     []client.Object
 	valid    map[string]bool // ingress ns/name -> IsValidIngress
 	observed []Observed
@@ -414,6 +415,9 @@ func observe(p *pipeline.Pipeline, in Input, objs []client.Object, applyErr erro
 		return res
 	}
 	res.problems = append(res.problems, nf.Problems...)
+	for _, b := range nf.Backends {
+		res.backends = append(res.backends, b.Name)
+	}
 	// the map files as rendered, in the order of the lookup chains of the rendered frontends
 	if f := nf.Frontend("_front_http"); f != nil {
 		res.defback = f.DefaultBackend
@@ -631,8 +635,8 @@ func coqCase(id int, in Input, rr runResult) string {
 	if rr.defback != "" && rr.defback != "_error404" {
 		defback = "(Some " + hx.Str(rr.defback) + ")"
 	}
-	return fmt.Sprintf("{| cid := %s; ccl := %s; cstrict := %s;\n  chttp := %s;\n  chttps := %s;\n  cdefault := %s;\n  cdefback := %s;\n  creqs := %s |}",
-		hx.N(id), coqCluster(in, rr), hx.Bool(in.Strict), coqChain(rr.chains[0]), coqChain(rr.chains[1]), coqChain(rr.chains[2]), defback, hx.List(reqs))
+	return fmt.Sprintf("{| cid := %s; ccl := %s; cstrict := %s;\n  chttp := %s;\n  chttps := %s;\n  cdefault := %s;\n  cdefback := %s; cbackends := %s;\n  creqs := %s |}",
+		hx.N(id), coqCluster(in, rr), hx.Bool(in.Strict), coqChain(rr.chains[0]), coqChain(rr.chains[1]), coqChain(rr.chains[2]), defback, coqStrs(rr.backends), hx.List(reqs))
 }
 
 // ---------------------------------------------------------------- corpus
@@ -723,6 +727,25 @@ func corpus() []Input {
 		s := mk("wildcard host *.wild.example with the exact sibling a.wild.example (strict-host on)", "", false, reqs, objs...)
 		s.Strict = true
 		out = append(out, s)
+	}
+	// history with strict-host: host b.example only has /only, so SyncConfig gives it a ("/", begin) path
+	// bound to the default host's root backend ns1_svc1_8080; then svc1's targetPort changes (backend
+	// id becomes ns1_svc1_8081): is b.example's strict path rebuilt by the partial sync?
+	{
+		svcA := world.Service("ns1", "svc1", world.SvcPort{Name: "http", Port: 80, TargetPort: intstr.FromInt(8080)})
+		svcA2 := world.Service("ns1", "svc1", world.SvcPort{Name: "http", Port: 80, TargetPort: intstr.FromInt(8081)})
+		h := mk("history, strict-host: the default host's root service changes its targetPort", "ns1/svc3", false,
+			[]Req{{false, "b.example", "/zzz"}, {false, "b.example", "/only/1"}, {false, "unknown.example", "/zzz"}},
+			svcA, world.Endpoints("ns1", "svc1", world.EpPort{Name: "http", Port: 8080, Ready: []string{"10.0.0.1"}}),
+			world.Service("ns1", "svc2", world.SvcPort{Name: "http", Port: 80, TargetPort: intstr.FromInt(8080)}),
+			world.Endpoints("ns1", "svc2", world.EpPort{Name: "http", Port: 8080, Ready: []string{"10.0.0.2"}}),
+			world.Service("ns1", "svc3", world.SvcPort{Name: "http", Port: 80, TargetPort: intstr.FromInt(8080)}),
+			world.Endpoints("ns1", "svc3", world.EpPort{Name: "http", Port: 8080, Ready: []string{"10.0.0.3"}}),
+			world.Ingress("ns1", "ing1", 10, world.IngRule{Host: "", Paths: []world.IngPath{{Path: "/", Type: "Prefix", Service: "svc1", PortNum: 80}}}),
+			world.Ingress("ns1", "ing2", 11, world.IngRule{Host: "b.example", Paths: []world.IngPath{{Path: "/only", Type: "Prefix", Service: "svc2", PortNum: 80}}}))
+		h.Strict = true
+		h.Steps = world.EncodeHistory([][]pipeline.Change{{{Op: pipeline.Update, Obj: svcA2}}})
+		out = append(out, h)
 	}
 	// witness of C03_maps_agree_refuted: /api ImplementationSpecific and /api Prefix on one host (plus / Prefix).
 	// The request /api is ambiguous (left unjudged: C04 leaves the order of equal-length rules
@@ -828,6 +851,7 @@ func main() {
 			}
 			// oracle: the property read directly on the objects as they are now
 			fails := 0
+			staleStrict := false
 			var keptReqs []Req
 			var keptObs []Observed
 			for i, rq := range in.Requests {
@@ -854,7 +878,10 @@ func main() {
 					fails++
 					if fails <= 3 {
 						key := cl.classify(rq, exp, ob)
-						if si > 0 && key == "route-mismatch" {
+						if si > 0 && in.Strict && strings.Contains(exp.Via, "strict-host") && key == "route-mismatch" {
+							key = "strict-host-path-stale-after-partial-sync"
+							staleStrict = true
+						} else if si > 0 && key == "route-mismatch" {
 							key = "route-mismatch-after-incremental-step"
 						}
 						res.Count("oracle_fail_" + key)
@@ -867,7 +894,13 @@ func main() {
 				res.Sample(5, map[string]interface{}{"note": in.Note, "default_service": in.DefaultService, "drain": in.Drain,
 					"objects": len(in.Objects), "steps": len(in.Steps), "requests": len(in.Requests), "first_request": in.Requests[0], "observed": rr.observed[0]})
 			}
-			if !o.Search && len(keptReqs) > 0 && !in.SSLRedirect {
+			if staleStrict {
+				// the known partial-sync defect of strict-host paths (reported by the oracle above): the
+				// Coq model describes the state a full sync of the current cluster renders, this stage is
+				// not fed to it
+				res.Count("stage_not_modelled_stale_strict_host_path")
+			}
+			if !o.Search && len(keptReqs) > 0 && !in.SSLRedirect && !staleStrict {
 				in, rr := in, rr
 				judged := in
 				judged.Requests = keptReqs
